@@ -8,7 +8,7 @@ from func_adl.type_based_replacement import register_func_adl_os_collection, rem
 
 from vlib.sh.common import HI, LO, TWIN, L, attr, call, const, dump, lam, mcall, name, nt, pick, tick
 
-NPOSN = 7
+NPOSN = 9
 
 
 class Trk:
@@ -57,6 +57,14 @@ def fn2(a: int, b: int) -> float: ...  # noqa
 def fn3(a: int, b: int, c: int) -> float: ...  # noqa
 
 
+@func_adl_callable()
+def lead(e: Evt, k: int = 1) -> Jet: ...  # noqa
+
+
+@func_adl_callable()
+def jets_of(e: Evt, name: str = "d") -> Iterable[Jet]: ...  # noqa
+
+
 class TDS(EventDataset[Evt]):
     def __init__(self):
         super().__init__(Evt)
@@ -79,6 +87,8 @@ def target(pos, n):
         return getattr(Trk, "m%d" % n), "m%d" % n
     if pos == 4:
         return getattr(Coll, "t%d" % n), "t%d" % n
+    if pos in (7, 8):
+        return getattr(Jet, "m%d" % n), "m%d" % n
     return [fn1, fn2, fn3][n - 1], "fn%d" % n
 
 
@@ -99,6 +109,12 @@ def site(pos, fname, args, kws):
         return TDS(), ast.Call(ast.Attribute(mcall(name("e"), "Jets"), fname, L), args, kws)
     if pos == 5:
         return TDS(), ast.BinOp(ast.Call(name(fname), args, kws), ast.Add(), const(1))
+    if pos == 7:
+        # the receiver is the result of a registered function whose own call has to be normalised (default omitted)
+        return TDS(), ast.Call(ast.Attribute(ast.Call(name("lead"), [name("e")], []), fname, L), args, kws)
+    if pos == 8:
+        # ... and the call site sits in the lambda of a Select over a collection such a function returns
+        return TDS(), mcall(ast.Call(name("jets_of"), [], [ast.keyword("e", name("e"))]), "Select", lam("j", ast.Call(attr("j", fname), args, kws)))
     inner = lam("j", ast.Compare(ast.Call(name(fname), args, kws), [ast.Gt()], [mcall(mcall(name("j"), "Tracks"), "Count")]))
     return TDS(), mcall(mcall(mcall(name("e"), "Jets"), "Where", inner), "Count")
 
@@ -113,7 +129,7 @@ def op_calls(n):
 
 def c07(code: int, ndef: int, npos: int, kwmask: int, perm: int, v0: int, v1: int, v2: int, d0: int, d1: int, d2: int) -> str:
     """
-    pre: LO <= code < HI and 0 <= code < 21
+    pre: LO <= code < HI and 0 <= code < 27
     pre: 0 <= ndef <= 3 and 0 <= npos <= 3 and 0 <= kwmask < 8 and 0 <= perm < 6
     post: (_ == '') != TWIN
     """
